@@ -137,16 +137,18 @@ class FortranRegularExpressions:
     # `defined NAME` or `defined(NAME)`: the closing parenthesis belongs to the
     # operator only if it was opened by it, group 2 is the name
     DEFINED: Pattern = compile(r"defined[ ]*(\()?[ ]*([a-z_]\w*)[ ]*(?(1)\))", I)
+    # (blanks and tabs separate the parts of a directive)
     PP_REGEX: Pattern = compile(
-        r"[ ]*#[ ]*(if(?=[ (!\t])|ifdef|ifndef|else|elif|endif)", I
+        r"[ \t]*#[ \t]*(if(?=[ (!\t])|ifdef|ifndef|else|elif|endif)", I
     )
     PP_DEF: Pattern = compile(
-        r"[ ]*#[ ]*(define|undef|undefined)[ ]*(\w+)(\([ ]*([ \w,]*?)[ ]*\))?",
+        r"[ \t]*#[ \t]*(define|undef|undefined)[ \t]*(\w+)"
+        r"(\([ ]*([ \w,]*?)[ ]*\))?",
         I,
     )
     PP_DEF_TEST: Pattern = compile(r"(![ ]*)?defined[ ]*\([ ]*(\w*)[ ]*\)$", I)
-    PP_INCLUDE: Pattern = compile(r"[ ]*#[ ]*include[ ]*([\"\w\.]*)", I)
-    PP_ANY: Pattern = compile(r"^[ ]*#:?[ ]*(\w+)")
+    PP_INCLUDE: Pattern = compile(r"[ \t]*#[ \t]*include[ \t]*([\"\w\.]*)", I)
+    PP_ANY: Pattern = compile(r"^[ \t]*#:?[ \t]*(\w+)")
     # Context matching rules
     CALL: Pattern = compile(r"[ ]*CALL[ ]+[\w%]*$", I)
     INT_STMNT: Pattern = compile(r"^[ ]*[a-z]*$", I)
